@@ -352,6 +352,13 @@ func genRef(r *Rand, p *Plan, tier string, focus string) {
 					s = g.acctSess(scope, flags, r.Chance(30))
 				}
 			}
+			if focus == "C19" && r.Chance(8) && len(s.Pkts) > 0 && len(s.Pkts[0].Body.S) >= 3 {
+				// a device that pads or NUL-terminates user, port or address: the octets are
+				// part of the field, the lengths still add up, nothing to flag under the right key
+				f := r.Intn(3)
+				pad := PickOf(r, " ", "\x00", " \x00", "\x00\x00", "  ")
+				s.Pkts[0].Body.S[f] = append(append([]byte{}, s.Pkts[0].Body.S[f]...), pad...)
+			}
 			if r.Chance(12) {
 				// sessions may start anywhere in the sequence space, also right under its top
 				s = ShiftSeq(s, PickOf(r, uint8(3), 5, 101, 249, 251, 253, 255))
